@@ -309,3 +309,24 @@ Definition is_eor (u : update) : bool :=
   | MkUpd [] [AUnreach _ (MpOther _ _ [])] [] => true
   | _ => false
   end.
+
+(* ---------- the End-of-RIB shortcut of the BMP dump phase ---------- *)
+(* routecore's UpdateMessage::is_eor as used by bmp_tcp_in (states/dumping.rs):
+   the empty UPDATE, or the (first) MP_UNREACH_NLRI yields no prefix - whatever
+   else the UPDATE carries. A message so classified ends the dump phase and is
+   not exploded. *)
+Definition no_unreach_routes (l : list attr) : bool :=
+  match first_unreach l with
+  | Some n => match mp_routes n with [] => true | _ => false end
+  | None => false
+  end.
+Definition lax_eor (u : update) : bool :=
+  match u with
+  | MkUpd [] [] [] => true
+  | _ => no_unreach_routes (u_attrs u)
+  end.
+(* the guard added by the repair: the UPDATE announces or withdraws something *)
+Definition carries_routes (u : update) : bool :=
+  negb (match u_wd u with [] => true | _ => false end)
+  || negb (match u_nlri u with [] => true | _ => false end)
+  || existsb is_reach (u_attrs u).
